@@ -67,6 +67,31 @@ MUTATIONS = [
      "            merged_initial_state = deep_merge(\n                dict(daughter.get('initial_state', {})), daughter_state)"),
     ('s-move-no-view-expire', 'C07', S, "                    deletions.extend(move_deletions)\n                    view_expire = True", "                    deletions.extend(move_deletions)"),
     ('s-steps-no-view-rebuild', 'C07', E, "            if view_expire:\n                self.state.build_topology_views()\n\n    def _send_updates", "            pass\n\n    def _send_updates"),
+    ('w-glob-no-normalize', 'C06', T, "                    inner = normalize_path(outer + path + (child,))", "                    inner = outer + path + (child,)"),
+    ('w-emit-no-unit-conversion', 'C12', S, "                if self.units:\n                    return self.serializer.serialize(\n                        self.value.to(self.units))", "                if False:\n                    pass"),
+    ('w-units-not-normalised', 'C08', S, "                self.value = self.value.to(self.units)", "                pass"),
+    ('w-inverse-ignores-path', 'C06', T, "                    inner = normalize_path(outer + path.pop('_path'))\n\n                    for update_key", "                    path.pop('_path')\n                    inner = outer\n\n                    for update_key"),
+    ('w-view-whole-store', 'C07', S, "            for key, subschema in schema.items():\n                path = topology.get(key)\n                if key == '*':", "            for key, subschema in list(schema.items()):\n                path = topology.get(key)\n                if isinstance(subschema, dict) and not (set(subschema) & self.schema_keys) and key != '*' and not isinstance(path, dict):\n                    node_ = self.get_path(path if path is not None else (key,))\n                    subschema = dict(subschema, **{k_: {} for k_ in (node_.inner if node_ else {})})\n                if key == '*':"),
+    ('w-default-ignored', 'C15', S, "            if self.value is None:\n                self.value = self.default", "            if self.value is None:\n                self.value = self.default if not isinstance(self.default, int) or self.default < 40 else 0"),
+    # parallel (hand-ported from seeded changes whose patches no longer apply)
+    ('p-end-skips-steps', 'C13', S,
+     "        elif isinstance(value, Store):\n            for subval in value.inner:\n                self.recursive_end_process(value[subval])",
+     "        elif isinstance(value, Store):\n            for subval in value.inner:\n                if not (isinstance(value[subval].value, Process) and value[subval].value.is_step()):\n                    self.recursive_end_process(value[subval])"),
+    ('p-override-ignored', 'C13', P, "        deep_merge(ports, self.schema_override)\n", "        deep_merge(ports, self._schema_override)\n"),
+    ('p-end-not-draining', 'C13', P, "            self._command_result = self.parent.recv()\n        self.parent.send(('end', None, None))",
+     "            pass\n        self.parent.send(('end', None, None))"),
+    ('p-no-ended-guard', 'C13', P, "        # Only end once.\n        if self._ended:\n            return\n", "        # Only end once.\n"),
+    ('p-engine-end-skips-steps', 'C13', E, "        apply_func_to_leaves(\n            self.steps, self._end_process_if_parallel)\n", ""),
+    # timeline
+    ('t-equal-time-replaces', 'C19', TL, "            merged.setdefault(time, {}).update(change)", "            merged[time] = dict(change)"),
+    ('t-first-due-only', 'C19', TL, "        while self.timeline and time >= self.timeline[0][0]:", "        if self.timeline and time >= self.timeline[0][0]:"),
+    ('t-strict-compare', 'C19', TL, "        while self.timeline and time >= self.timeline[0][0]:", "        while self.timeline and time > self.timeline[0][0]:"),
+    ('t-unsorted', 'C19', TL, "        self.timeline = sorted(merged.items(), key=lambda event: event[0])", "        self.timeline = list(merged.items())"),
+    # composites
+    ('c-merge-no-copy', 'C16', C, "                deep_copy_internal(composite['processes']))", "                composite['processes'])"),
+    ('c-merge-ignores-path', 'C16', C, "        merge_processes = assoc_in({}, path, merge_processes)\n", ""),
+    ('c-override-all', 'C16', P, "    for key, override in overrides.items():\n        process = processes[key]\n        if isinstance(process, Process):\n            process.merge_overrides(override)",
+     "    for key, override in overrides.items():\n        process = processes[key]\n        if isinstance(process, Process):\n            for other in processes.values():\n                if isinstance(other, Process):\n                    other.merge_overrides(override)"),
 ]
 
 QUIET = [
